@@ -22,7 +22,8 @@ Hypotheses: `CollisionFree hf` (`Lemmas/HashCF.lean`), `[LawfulBEq H]`, and both
 NOT assumed: the wire round trip `ofBytes (toBytes h) = h` and `|toBytes h| = 32`.  They are not
 needed, and together with the global `CollisionFree hf` they would be UNSATISFIABLE (`toBytes`
 injective into the finite set of 32-byte strings makes `H` finite, `chunkCv` injective on an
-infinite domain makes it infinite) — every theorem carrying all three would be vacuous.
+infinite domain makes it infinite; machine-checked: `Bao.collisionFree_wire_unsat` in
+`Lemmas/CFUnsat.lean`) — every theorem carrying all three would be vacuous.
 
 Vocabulary (`Lemmas/EncL.lean`):
 * `planOf ob q`   – the plan the encoder walks (`none` = the plan iterator panics);
